@@ -375,7 +375,7 @@ def _life(c, prop, pushes):
         # witness schedules: counterexamples of the model WITHOUT the shutdown guard (the code as it is), always replayed
         # (shutdown while the connect is in OnConnecting: wit, wit2; between authentication and hub registration: wit3, wit4)
         runs += [(lambda w=w: c.tlc('Connect', 'ConnLife', 'life_%s.cfg' % w, workers=1, timeout=600, expect_violation=True))
-                 for w in ('wit', 'wit2', 'wit3', 'wit4')]
+                 for w in ('wit', 'wit2', 'wit3', 'wit4', 'wit5')]
     else:
         # witness schedules: a push of each kind inside the connect window
         # (Hpub*: a publication carrying an offset to the gated / an ungated / the positioned connect-time subscription)
@@ -416,11 +416,23 @@ def _life(c, prop, pushes):
 
 def c08(c):
     _life(c, 'C08', False)
+    # subscription kind "map": every schedule of ConnLifeMap.tla (subscribe parked in MapBroker.ReadState, Client.Unsubscribe
+    # arriving in that window / on the live subscription, re-subscription, close) replayed on a real client
+    rm = c.tlc_exhaustive('Connect', 'ConnLifeMap', 'life_map_quick.cfg' if c.tier == 'quick' else 'life_map_thorough.cfg', workers=1, timeout=600, dump=True)
+    paths = [st['hist'] for st in c.dump_states(rm) if st['closed']]
+    resm = c.harness(c._life_bin, 'c08map', {'paths': paths}, timeout=900)
+    c.absorb(resm)
+    c.cov['traces_validated_against_impl'] += resm['completed']
+    c.cov['evaluations'] += resm['executed']
+    c.cov['distinct_nontrivial'] += resm['nontrivial']
+    c.log('map subscriptions: %d schedules of ConnLifeMap.tla, %d executed, %d completed, %s' % (len(paths), resm['executed'], resm['completed'], resm['counters']))
     c.cov['rule'] = ('behaviours of ConnLife.tla (TLC -simulate with slot weights, plus 4 witness schedules of the unguarded model: Shutdown during OnConnecting and between authentication and hub '
                      'registration), each replayed on its own node with the reader, tick and close threads parked at OnConnecting / Transport.AcceptProtocol (addClient) / Broker.Subscribe / OnConnect / '
                      'OnAlive / Transport.Close as the model says, connections with and without expiring credentials, bidirectional connect command and unidirectional Client.Connect; a timer armed while '
                      'OnConnect is still running is fired and judged by its observable consequence; a drifted behaviour is re-executed (3 attempts); non-trivial = completed behaviour in which a connect '
-                     'handshake passed its authentication step, a tick or a close ran, distinct by step list')
+                     'handshake passed its authentication step, a tick or a close ran, distinct by step list'
+                     + '; plus every schedule of ConnLifeMap.tla (client-side map subscription parked inside MapBroker.ReadState, Client.Unsubscribe in that window or on the live subscription, '
+                     're-subscription, close) with the unsubscribe-count monitor; Shutdown is also called while a close() of a connection is blocked behind its reader inside OnConnect (witness Wit5)')
 
 
 def _dictconn_rows(states):
